@@ -1352,7 +1352,19 @@ class Executor:
             return self.eval(e.body, st)
         if z3.is_false(c):
             return self.eval(e.orelse, st)
-        a, b = self.eval(e.body, st), self.eval(e.orelse, st)
+        # each arm is evaluated under its guard, so that the safety obligations it generates (index in range, divisor positive, ...) are path-sensitive;
+        # definitional facts recorded while evaluating an arm stay in the path condition as implications
+        n0 = len(st.pc)
+        st.pc.append(c)
+        a = self.eval(e.body, st)
+        extra_a = st.pc[n0 + 1:]
+        del st.pc[n0:]
+        st.pc.append(z3.Not(c))
+        b = self.eval(e.orelse, st)
+        extra_b = st.pc[n0 + 1:]
+        del st.pc[n0:]
+        st.pc.extend(z3.Implies(c, to_bool(x)) for x in extra_a)
+        st.pc.extend(z3.Implies(z3.Not(c), to_bool(x)) for x in extra_b)
         if isinstance(a, OptV) or isinstance(b, OptV) or a is None or b is None:
             return OptV(z3.If(c, OptIntK.unwrap(a), OptIntK.unwrap(b)))
         ka = kind_of(a)
